@@ -182,8 +182,21 @@ class CallMixin:
                 main = forall_pat(bvs, z3.Implies(z3.And(*guards2), body), pats)
                 return z3.And(main, z3.Implies(lo_t <= last, inst))
             pats = choose_patterns(bvs, body)
+            if self.opt("witness_marks", False) and len(bvs) == 1:
+                pats = list(pats or []) + [self.witness_mark(bvs[0])]
             return forall_pat(bvs, z3.Implies(z3.And(*guards), body), pats)
+        if self.opt("witness_marks", False) and len(bvs) == 1:
+            # every existential witness carries the (universally true) mark; every single-variable universal may be instantiated
+            # on a marked term -- this connects an existential hypothesis with a universal one over the same index
+            return z3.Exists(bvs, z3.And(*(guards + [body, self.witness_mark(bvs[0])])))
         return z3.Exists(bvs, z3.And(*(guards + [body])))
+
+    def witness_mark(self, t):
+        if getattr(self, "_mark", None) is None:
+            self._mark = z3.Function("witness!", I, z3.BoolSort())
+            x = z3.Int("wm!x")
+            self.axioms.append(z3.ForAll([x], self._mark(x), patterns=[self._mark(x)]))
+        return self._mark(t)
 
     def eval_old(self, node, st):
         if self.old_state is None:
@@ -333,7 +346,29 @@ class CallMixin:
         return True
 
     # ------------------------------------------------------------ functions of the repository
+    def resolve_reexport(self, target):
+        """pandora.disparity.f where the package __init__ imports f from a sub-module"""
+        for _ in range(4):
+            try:
+                extract.load_function(target)
+                return target
+            except extract.ExtractError:
+                pass
+            head, _, last = target.rpartition(".")
+            if not head or extract.module_file(head) is None:
+                return target
+            imp = extract.module_imports(head).get(last)
+            if not imp or imp[0] != "name":
+                return target
+            nxt = imp[1] + "." + imp[2]
+            if nxt == target:
+                return target
+            target = nxt
+        return target
+
     def call_target(self, target, args, kwargs, st, n):
+        if target not in self.db.contracts and target not in self.db.assumed:
+            target = self.resolve_reexport(target)
         cc = self.db.contracts.get(target) or self.db.assumed.get(target)
         if cc is not None and not self.opt("inline_" + target.split(".")[-1], False):
             return self.call_with_contract(cc, target, args, kwargs, st, n)
@@ -451,7 +486,21 @@ class CallMixin:
                 self._pure_cache = getattr(self, "_pure_cache", {})
                 if pure_key in self._pure_cache:
                     return self._pure_cache[pure_key]
-            if rt is not None:
+            if cc.options.get("returns"):
+                # the result is (a tuple of) the listed arguments themselves; option(fresh_vars={param: {var: type}}) replaces
+                # dataset variables of those arguments by unknown arrays (what the callee rebuilt)
+                from .lazy import SDs, SData
+                for p, vs in (cc.options.get("fresh_vars") or {}).items():
+                    d = b.get(p)
+                    if isinstance(d, SDs):
+                        for vn, vt in vs.items():
+                            a = fresh_of_type(st, "%s[%s]'" % (p, vn), vt, None)
+                            if isinstance(a, SArr):
+                                self.local_cells.add(a.cell)
+                            d.vars[vn] = SData(a, name=vn)
+                rs = [b.get(p) for p in cc.options["returns"]]
+                res = tuple(rs) if len(rs) > 1 else rs[0]
+            elif rt is not None:
                 res = fresh_of_type(st, "res_" + target.split(".")[-1], rt, None)
                 if pure_key is not None:
                     self._pure_cache[pure_key] = res
@@ -460,6 +509,14 @@ class CallMixin:
                         self.local_cells.add(a.cell)
             post = st.fork()
             post.vars = dict(b)
+            if cc.options.get("returns_expr"):
+                # the callee returns (a view of) one of its arguments: an expression over its parameters, in the state after the call
+                saved_spec = self.spec
+                self.spec = True
+                try:
+                    res = self.eval(ast.parse(cc.options["returns_expr"], mode="eval").body, post)
+                finally:
+                    self.spec = saved_spec
             self.old_state, self.result = old, res
             for cl in cc.ensures:
                 st.assume(as_bool(self.eval_spec(cl.expr, post)))
